@@ -142,6 +142,12 @@ func tags(c *Case, obs *RunObs) ([]string, bool) {
 	if c.Twice {
 		t = append(t, "second-run")
 	}
+	if c.NoStore {
+		t = append(t, "no-store")
+	}
+	if c.SetFailAt > 0 {
+		t = append(t, "store-set-fails")
+	}
 	if l := c.Lists; l != nil {
 		t = append(t, fmt.Sprintf("lists:shared-by-%d", len(l.Graphs)))
 		foreign, dup := false, false
